@@ -111,6 +111,9 @@ def pool():
                 extra.append((label + " fragment moved into the path", U.build(scheme=sc, authority=au, path=(pa or ("/" if au else "")) + ("?" + q if q else "") + "#" + f, encoded=True)))
         except (ValueError, TypeError):
             pass
+    for p1 in ("*", "x", "/"):
+        extra.append(("build(encoded) http h.com path %r" % p1, U.build(scheme="http", host="h.com", path=p1, encoded=True)))
+        extra.append(("SplitResult http h.com path %r" % p1, U(SplitResult("http", "h.com", p1, "", ""), encoded=True)))
     extra.append(("build http h.com", U.build(scheme="http", host="h.com")))
     extra.append(("build http h.com /", U.build(scheme="http", host="h.com", path="/")))
     extra.append(("build http h.com:80", U.build(scheme="http", host="h.com", port=80)))
